@@ -594,8 +594,10 @@ def _virtual_calls(case):
 
 
 def _oracle_batch(case):
-    """BatchReactor.fit output per entry == the rules applied to that entry alone (fresh objects, no batch,
-    no cache), flattened in rule order and de-duplicated keeping first occurrences."""
+    """BatchReactor.fit output per entry == what the SAME reactor configuration returns for that entry ALONE: the literal reference is a
+    fresh single-entry batch (cache off) asked through the same public API, under the same allocator / stub as the batch.  (How a single
+    entry's answer is assembled from the rules - flatten in rule order, first-occurrence de-duplication - is the MODEL's business: a drift
+    there shows up as a correspondence break, not as a property failure.)"""
     from ..gen.c14_trace import Tracer
     stub = case["exec"] == "stub"
     # the batch as a user runs it: real id(), real GC when alloc == "real"; the adversarial allocator otherwise
@@ -603,25 +605,28 @@ def _oracle_batch(case):
     T.gc_each = bool(case.get("gc_each"))
     T.cfg = case
     T.install()
+    refs = {}
     try:
         _, outs, pool = _run_batch(case, T)
         del pool
+        from synkit.Synthesis.Reactor.batch_reactor import BatchReactor
+        for rules_, inv_, subs_ in _virtual_calls(case):
+            for s in subs_:
+                k = (s, tuple(rules_), inv_)
+                if k not in refs:
+                    one = BatchReactor([s], cache_enabled=False, dedupe=case["dedupe"], strategy=case.get("strategy", "bt"),
+                                       explicit_h=case.get("explicit_h", True), implicit_temp=case.get("implicit_temp", False))
+                    r1 = one.fit(list(rules_), invert=inv_)
+                    refs[k] = list(r1[0]["syn_bw" if inv_ else "syn_fw"])
     finally:
         T.remove()
     fails = []
-    memo = {}
     for ci, ((rules_, inv_, subs_), call_out) in enumerate(zip(_virtual_calls(case), outs)):
         for ei, (s, got) in enumerate(zip(subs_, call_out)):
-            flat = []
-            for r in rules_:
-                k = (s, r, inv_)
-                if k not in memo:
-                    memo[k] = _stub("S:" + s, "R:" + r, inv_) if stub else _single_rule(s, r, inv_, case)
-                flat += memo[k]
-            want = _dedupe_ref(flat) if case["dedupe"] else flat
+            want = refs[(s, tuple(rules_), inv_)]
             if got != want:
                 fails.append(dict(clause="batch-equals-single",
-                                  detail="%scall %d entry %d (%s, %s): batch gave %d result(s) %r..., the entry alone gives %d %r..."
+                                  detail="%scall %d entry %d (%s, %s): batch gave %d result(s) %r..., the entry alone (single-entry batch, cache off) gives %d %r..."
                                   % ("Benchmark: fit " if case.get("bench") else "", ci, ei, s[:60], "backward" if inv_ else "forward",
                                      len(got), got[:2], len(want), want[:2])))
                 if len(fails) >= 3:
@@ -1288,14 +1293,15 @@ TRUSTED_BASE = [
     "adversarial synthetic one)",
     "harness instrumentation harness/gen/c14_trace.py (wrappers installed from the harness process; weakref.finalize as the deallocation witness)",
     "CPython object model: `is`/id() semantics, an address is reused only after deallocation, dict insertion order",
-    "joblib/loky and concurrent.futures return results in submission order (tested for worker counts 1..8, not proved)",
+    "joblib/loky and concurrent.futures satisfy the pool contract `pm f l = map f l` (one result per item, in submission order): an explicit premise of "
+    "C14_crn_pool_contract / C14_rows_pool_contract, tested for worker counts 1..8, not proved",
 ]
 ASSUMPTIONS = ["graphs handed to the applier are not mutated while cached (BatchReactor never does)",
                "cache_maxsize >= 1 (0 raises StopIteration in the eviction line)",
                "the reactor is a function of the contents of substrate and rule (monitored: table conflicts raise)"]
 TESTED_NOT_PROVED = [
     "BatchReactor entry_n_jobs 1..8 and parallel_rules/rule_n_jobs vs serial: the real loky pools are compared at run time with the serial run, with every entry alone "
-    "(SynReactor rule by rule) and with the worker-process model fed with the single-entry single-rule results — for every explicit_h / implicit_temp combination, "
+    "(a fresh single-entry batch, cache off, through the public API) and with the worker-process model fed with the single-entry single-rule results — for every explicit_h / implicit_temp combination, "
     "strategy, dedupe, direction, cache off / tiny, dict entries, two fits on one object; that the options reach the worker processes is tested, not proved",
     "AAMValidator.validate_smiles n_jobs 1..8", "BalanceReactionCheck.dicts_balance_check n_jobs 1..8",
     "SynCRN.build(parallel=True, max_workers=k) vs serial: identical graph (nodes, attributes, edges) and identical full event records "
